@@ -48,6 +48,10 @@ type c20Flow struct {
 	FundShare int `json:"funding_txid_sharing,omitempty"`
 	// OrdTail: OP_RETURN metadata of an enriched inscription (items pushed after OP_RETURN); nil = plain inscription
 	OrdTail []mon.Hex `json:"ord_op_return_items,omitempty"`
+	// OrdDataLen: payload size of the inscribed ordinal (0 = the 13-byte default)
+	OrdDataLen int `json:"ord_payload_len,omitempty"`
+	// ExtraUTXOs: values of extra seller coins offered to the two-dummy bid acceptance (AcceptBid2DArgs.ExtraUTXOs)
+	ExtraUTXOs []uint64 `json:"extra_seller_utxos,omitempty"`
 }
 
 type c20Inscr struct {
@@ -93,6 +97,9 @@ func c20JudgeFlow(c *mon.Ctx, f *c20Flow) {
 	if f.OrdInscr {
 		t := bt.NewTx()
 		ia := &bscript.InscriptionArgs{LockingScriptPrefix: bscript.NewFromBytes(append([]byte{}, *sellerScript...)), Data: []byte("Hello, world!"), ContentType: "text/plain;charset=utf-8"}
+		if f.OrdDataLen > 0 {
+			ia.Data = bytes.Repeat([]byte("ordinal payload "), f.OrdDataLen/16+1)[:f.OrdDataLen]
+		}
 		if len(f.OrdTail) > 0 {
 			ia.EnrichedArgs = &bscript.EnrichedInscriptionArgs{}
 			for _, it := range f.OrdTail {
@@ -195,8 +202,14 @@ func c20JudgeFlow(c *mon.Ctx, f *c20Flow) {
 				cn := coins[k]
 				prevs = append(prevs, &bt.UTXO{TxID: in.PreviousTxID(), Vout: in.PreviousTxOutIndex, Satoshis: cn.sats, LockingScript: bscript.NewFromBytes(cn.script)})
 			}
+			var extras []*bt.UTXO
+			for i, v := range f.ExtraUTXOs { // seller coins the acceptance may (or may not) use
+				id := crypto.Sha256(append(append([]byte("extra"), f.FundTxIDs...), byte(i)))
+				extras = append(extras, &bt.UTXO{TxID: id, Vout: uint32(i), LockingScript: bscript.NewFromBytes(append([]byte{}, *sellerScript...)), Satoshis: v, Unlocker: &sellerUnlocker})
+				coins[outKey(id, uint32(i))] = c20Coin{v, append([]byte{}, *sellerScript...)}
+			}
 			final, err = ord.AcceptBidToBuy1SatOrdinal2Dummies(ctx, &ord.ValidateBid2DArgs{PreviousUTXOs: prevs, BidAmount: f.Price, ExpectedFQ: fq},
-				&ord.AcceptBid2DArgs{PSTx: pstx, SellerReceiveOrdinalScript: bscript.NewFromBytes(append([]byte{}, *sellerRecv...)), OrdinalUnlocker: sellerUnlocker})
+				&ord.AcceptBid2DArgs{PSTx: pstx, SellerReceiveOrdinalScript: bscript.NewFromBytes(append([]byte{}, *sellerRecv...)), OrdinalUnlocker: sellerUnlocker, ExtraUTXOs: extras})
 		}
 	})
 	if !ok {
@@ -396,6 +409,14 @@ func init() {
 				f.SellerLen = prng.Pick(r, []int{1, 26, 35, 71, 105, 300})
 			}
 			f.FundShare = prng.Pick(r, []int{0, 0, 0, 1, 2, 3})
+			if f.OrdInscr && r.Chance(1, 5) { // inscriptions around and beyond the pre-Genesis script size limit
+				f.OrdDataLen = prng.Pick(r, []int{600, 9000, 9990, 12000, 70000})
+			}
+			if f.Flow == "bid-2d" && r.Chance(1, 3) {
+				for k := 1 + r.Intn(2); k > 0; k-- {
+					f.ExtraUTXOs = append(f.ExtraUTXOs, uint64(500+r.Intn(5000)))
+				}
+			}
 			if f.OrdInscr && r.Chance(1, 2) { // enriched inscription: OP_RETURN metadata of one or more items, one-byte items included
 				f.OrdTail = prng.Pick(r, [][]mon.Hex{{{0x31}}, {{0x31, 0x32}}, {{0x00}}, {{0x31}, {0x32}}, {[]byte("app"), []byte("type"), []byte("ord")}, {r.Bytes(80)}, {{0x81}}})
 			}
